@@ -355,7 +355,7 @@ func runPoolCase(cs *PoolCase) *PoolObs {
 	o.Snapshots = st.Snapshots
 	pool.Close()
 	// goroutine census: everything that appeared since the baseline must be gone (worker exit is asynchronous: poll)
-	deadline := time.Now().Add(3 * time.Second)
+	deadline := time.Now().Add(10 * time.Second)
 	for {
 		sn := quiesce.Snap(self)
 		var left []string
